@@ -411,6 +411,19 @@ def returns_immutable(fn: ast.AST) -> bool:
     return bool(rets) and all(imm(r.value) for r in rets if r.value is not None)
 
 
+class _Forwarder(ast.NodeTransformer):
+    """Replace loads of ``<obj>.<field>`` by the expression the field forwards."""
+
+    def __init__(self, obj: str, fields: Dict[str, ast.AST], skip_stores: bool = True):
+        self.obj, self.fields = obj, fields
+
+    def visit_Attribute(self, n: ast.Attribute):
+        self.generic_visit(n)
+        if isinstance(n.ctx, ast.Load) and isinstance(n.value, ast.Name) and n.value.id == self.obj and n.attr in self.fields:
+            return ast.copy_location(copy.deepcopy(self.fields[n.attr]), n)
+        return n
+
+
 class Inliner:
     def __init__(self, program, reference: Optional[Set[str]]):
         self.P = program
@@ -422,6 +435,7 @@ class Inliner:
         self.fn_alias: Dict[str, FuncInfo] = {}    # (renamed) parameter name -> function it was bound to at an inlined call
         self._local_cls_cache: Dict[tuple, object] = {}
         self.obj_class: Dict[str, object] = {}     # synthetic object name -> ClassInfo (inlined constructor calls)
+        self.obj_forward: Dict[str, Dict[str, ast.AST]] = {}   # synthetic object name -> {field: expression it forwards}
 
     def is_new(self, fi: FuncInfo) -> bool:
         if self.reference is None or fi.qualname in self.reference:
@@ -716,11 +730,52 @@ class Inliner:
                 pre.append(init)
         body = [copy.deepcopy(s) for s in t.node.body
                 if not (isinstance(s, ast.Expr) and isinstance(s.value, ast.Constant) and isinstance(s.value.value, str))]
+        if ctor_obj is not None:
+            self.obj_forward[ctor_obj] = self._forwarded_fields(root, t, actual)
         ren = _Renamer({a_: b_ for a_, b_ in mapping.items() if a_ != b_})
         body = [ren.visit(s) for s in body]
+        # a helper object that merely carries the caller's `self` (or an argument nobody rebinds) in a field it never
+        # reassigns: reads of that field are reads of the original
+        fw_obj = ctor_obj or (mapping.get(t.node.args.args[0].arg) if is_method and t.node.args.args else None)
+        fw = self.obj_forward.get(fw_obj) if fw_obj else None
+        if fw:
+            body = [_Forwarder(fw_obj, fw, skip_stores=True).visit(s) for s in body]
         for s in body:
             ast.fix_missing_locations(s)
         return pre, body, ret
+
+    def _forwarded_fields(self, root: FuncInfo, init: FuncInfo, actual: Dict[str, ast.AST]) -> Dict[str, ast.AST]:
+        """{field: argument expression} for `self.F = <parameter>` statements of a helper class's __init__ whose field is
+        assigned nowhere else in the class and whose argument is the caller's `self` or a name the caller never rebinds."""
+        out: Dict[str, ast.AST] = {}
+        ci = getattr(init, "ctor_of", None)
+        if ci is None or not init.node.args.args:
+            return out
+        me = init.node.args.args[0].arg
+        base = getattr(root, "inherited_from", None) or root
+        rebound = _assigned_names(base.node)
+        stores: Dict[str, int] = {}
+        for c in ci.mro:
+            for m in c.methods.values():
+                for n in walk_local(m.node):
+                    if isinstance(n, ast.Attribute) and isinstance(n.ctx, (ast.Store, ast.Del)) and isinstance(n.value, ast.Name) \
+                            and m.node.args.args and n.value.id == m.node.args.args[0].arg:
+                        stores[n.attr] = stores.get(n.attr, 0) + 1
+        for st in init.node.body:
+            if isinstance(st, ast.AnnAssign) and st.value is not None:
+                tg, val = st.target, st.value
+            elif isinstance(st, ast.Assign) and len(st.targets) == 1:
+                tg, val = st.targets[0], st.value
+            else:
+                continue
+            if not (isinstance(tg, ast.Attribute) and isinstance(tg.value, ast.Name) and tg.value.id == me and isinstance(val, ast.Name)):
+                continue
+            if stores.get(tg.attr, 0) != 1:
+                continue
+            arg = actual.get(val.id)
+            if isinstance(arg, ast.Name) and (arg.id in ("self", "cls") or (arg.id in base.params and arg.id not in rebound)):
+                out[tg.attr] = arg
+        return out
 
     def splice_yields(self, body: List[ast.stmt], target: Optional[ast.AST], caller_body: List[ast.stmt], kind: str) -> List[ast.stmt]:
         """Replace every ``yield V`` statement by ``target = V`` + the caller's body."""
